@@ -17,7 +17,7 @@ import (
 func init() {
 	register(&Prop{
 		ID:        "C07",
-		Technique: "SSA path rules: result-must-be-tested on every loop that evaluates its own elements (exit-marker forwarding), control dependence of marker unwrapping on a tag comparison, dominance of cleanup registration (defer) over the protected evaluation, re-panic shape of recover handlers",
+		Technique: "SSA path rules: result-must-be-tested (against *ReturnResult and *GoTo) on every loop that evaluates its own elements; tagbody engines found by shape and checked for tag test, whole-body search and hand-up of an unresolved go; scope-marked-as-tagbody implies engine; result-must-be-tested on engine calls; control dependence of marker unwrapping on a tag comparison; dominance of cleanup registration (defer) over the protected evaluation; re-panic shape of recover handlers",
 		Explanation: "Exits (return-from, go) are result objects that every body-evaluating form must recognise and pass up. Decided statically: (C07.forward) for every loop in the module that evaluates its own element as a body form, the value is type-tested against *slip.ReturnResult with the success edge leaving the loop; " +
 			"(C07.target) a marker is unwrapped only under a comparison of its tag with the form's own block name and is otherwise returned unchanged; (C07.cleanup) unwind-protect, with-mutex-lock and stream-opening with- forms register their cleanup with defer before the first body evaluation; (C07.class) recover handlers of the evaluator re-panic. " +
 			"Necessary conditions: a form that fails C07.forward provably swallows an exit placed in its body. Exactly-once/innermost-first ordering across nested forms follows from Go's defer semantics only for forms that use defer and is not otherwise decided.",
